@@ -503,14 +503,12 @@ class ConnectedRemotePeer(RemotePeer):
 
                 except Exception:
                     self.local_peer.logger.info("%15s INVALID block: %s" % (self.host, traceback.format_exc()))
-                    if self.local_peer.chain_manager.last_known_valid_coinstate:
-                        self.local_peer.chain_manager.set_coinstate(
-                            self.local_peer.chain_manager.last_known_valid_coinstate)
+                    self.local_peer.chain_manager.rollback_to_last_known_valid_coinstate()
                     # don't save bad blocks: drop what the rollback removed from the chain state (blocks that are part of the
                     # last validated state, e.g. one the miner just found and buffered from its own thread, stay)
-                    valid = self.local_peer.chain_manager.last_known_valid_coinstate
                     store = DefaultBlockStore.instance
                     with store.lock:
+                        valid = self.local_peer.chain_manager.last_known_valid_coinstate  # read under the store's lock
                         store.write_buffer[:] = [b for b in store.write_buffer
                                                  if valid is not None and b.hash() in valid.block_by_hash]
                     return
